@@ -12,6 +12,7 @@ Directives (each on its own line, inside a template `.rs` file):
   //@tailproof           (optional)   following lines are placed in a proof block before the result is returned
   //@end
 
+  //@ringlemma name=N vars=a,b,c lhs=".." rhs=".."   emits a proof fn for a polynomial identity with a generated step-by-step body
   //@trait file=src/poly.rs name=Evaluate     check that every `fn` line of the repo's trait occurs in the
                                               template trait that follows (modulo the named return)
 
@@ -327,6 +328,15 @@ def generate(template_path, src_root, out_path, vacuity=False):
         if st.startswith('//@struct'):
             d = parse_kv(st[len('//@struct'):])
             check_struct(src_root, d, lines[i + 1:i + 12])
+            i += 1
+            continue
+        if st.startswith('//@ringlemma'):
+            d = parse_kv(st[len('//@ringlemma'):])
+            try:
+                txt = hintgen.gen_ring_lemma(d['name'], d['vars'].split(','), d['lhs'], d['rhs'])
+            except (exprs.ParseError, hintgen.HintError) as e:
+                raise GenError(f"ring lemma {d.get('name')}: {e}")
+            segs.append([txt, None])
             i += 1
             continue
         if st.startswith('//@literals'):
